@@ -6,14 +6,16 @@ Import ListNotations.
 
 Lemma kstep_ok k l k' em :
   kinv k = true -> kenv k l = true -> kstep k l = Some (k', em) ->
-  kinv k' = true /\ kem_ok k k' em = true /\ k_g k' = fold_left gc_step em (k_g k).
+  kinv k' = true /\ kem_ok k k' em = true /\ k_g k' = fold_left gc_step em (k_g k) /\
+  k_gin k' = match l with CLoop f _ => gs_step (k_gin k) f | _ => k_gin k end.
 Proof.
   intros Hi He Hs. pose proof (forall_ck_ok _ kcheck_all k) as H. unfold kcheck in H.
   rewrite Hi in H. cbn [negb] in H.
   pose proof (proj1 (forallb_forall _ _) H l (all_klbl_ok l)) as H1. cbv beta in H1.
   rewrite He, Hs in H1. cbn [implb] in H1.
-  apply andb_true_iff in H1. destruct H1 as [H1 H3]. apply andb_true_iff in H1. destruct H1 as [H1 H2].
-  repeat split; auto using gc_eqb_eq.
+  apply andb_true_iff in H1. destruct H1 as [H1 H4]. apply andb_true_iff in H1. destruct H1 as [H1 H3].
+  apply andb_true_iff in H1. destruct H1 as [H1 H2].
+  repeat split; auto using gc_eqb_eq, gs_eqb_eq.
 Qed.
 
 Lemma ccause_o_eqb_eq a b : ccause_o_eqb a b = true -> a = b.
